@@ -6,7 +6,7 @@ from vf import gen, schema
 PROP = 'C14'
 STEP_KINDS = ['rewrite', 'assign-value', 'assign-units', 'rename', 'origin-ref', 'cast-dtype', 'add-objects',
               'add-nf-data', 'other-window', 'other-chunks', 'other-data', 'other-data-dtype', 'other-data-width', 'foreign-same-names', 'foreign-colliding-values',
-              'hc-mode-around', 'param-values']
+              'hc-mode-around', 'param-values', 'clear-channel-units', 'change-channel-units', 'assign-other-kind']
 META = {
     'level': 'exploration',
     'rule': ('one evaluation = one history (foreign files built and written, the target file built, written, mutated and '
@@ -37,6 +37,18 @@ def base_spec(r, avoid):
     from vf import metagen
     sp = metagen.meta_spec(r, avoid=avoid, n_objects=r.choice([3, 6, 10]), n_origins=r.choice([1, 2]), origin_pos='first',
                            mx=r.choice([128, 8192]), later_p=0.0)
+    # fixtures the history steps operate on: an indexed frame whose index channel has units, and attributes whose
+    # representation code is inferred from the value (text/number, text/reference, number/date-time)
+    ops = sp['ops']
+    n = 5
+    ops.append(gen.channel_op('K-INDEX', '<f8', (n,), fill={'kind': 'lin', 'start': 10.0, 'step': 0.5}, attrs={'units': 'm'}))
+    ops.append(gen.channel_op('K-CURVE', '<f4', (n,), fill={'kind': 'pos', 'tag': 321},
+                              attrs={'long_name': 'curve long name', 'units': 's'}))
+    ops.append(gen.frame_op('K-FRAME', [len(ops) - 2, len(ops) - 1], index_type='BOREHOLE-DEPTH'))
+    ops.append({'op': 'long_name', 'name': 'K-LN', 'attrs': {'quantity': 'pressure'}})
+    ops.append({'op': 'parameter', 'name': 'K-PARAM', 'attrs': {'values': [r.choice(['text value', 12.5, 7])], 'long_name': 'param text'}})
+    ops.append({'op': 'zone', 'name': 'K-ZONE', 'attrs': {'domain': 'TIME', 'maximum': 5.5, 'minimum': 1.0}})
+    ops.append({'op': 'axis', 'name': 'K-AXIS', 'attrs': {'coordinates': r.choice([[1, 2, 3], ['a', 'b'], [0.5, 1.5]])}})
     sp['write'] = {'output_chunk_size': 2 ** 16}
     return sp
 
@@ -94,6 +106,32 @@ def make_phase(r, kind, ops_so_far, base, avoid):
             if kind == 'assign-units' and k != 'text':
                 ph['ops'].append({'op': 'assign', 'target': i, 'target_op': t, 'kw': kw, 'part': 'units',
                                   'value': r.choice(gen.UNIT_STRINGS)})
+    elif kind in ('clear-channel-units', 'change-channel-units'):
+        cands = [i for i, o in chans if o['attrs'].get('units') is not None] or [chans[0][0]]
+        i = r.choice(cands)
+        ph['ops'].append({'op': 'assign', 'target': i, 'target_op': 'channel', 'kw': 'units', 'part': 'value',
+                          'value': None if kind.startswith('clear') else r.choice(['ft', 'K', 'Pa'])})
+    elif kind == 'assign-other-kind':
+        byname = {o['name']: i for i, o in objs}
+        which = r.choice(['param', 'param-ln', 'zone', 'axis', 'chan-ln'])
+        if which == 'param':
+            cur = ops_so_far[byname['K-PARAM']]['attrs']['values'][0]
+            ph['ops'].append({'op': 'assign', 'target': byname['K-PARAM'], 'target_op': 'parameter', 'kw': 'values', 'part': 'value',
+                              'value': [12.5 if isinstance(cur, str) else 'now text']})
+        elif which == 'param-ln':
+            ph['ops'].append({'op': 'assign', 'target': byname['K-PARAM'], 'target_op': 'parameter', 'kw': 'long_name', 'part': 'value',
+                              'value': {'$ref': byname['K-LN']}})
+        elif which == 'chan-ln':
+            ph['ops'].append({'op': 'assign', 'target': byname['K-CURVE'], 'target_op': 'channel', 'kw': 'long_name', 'part': 'value',
+                              'value': {'$ref': byname['K-LN']}})
+        elif which == 'zone':
+            for kw in ('maximum', 'minimum'):
+                ph['ops'].append({'op': 'assign', 'target': byname['K-ZONE'], 'target_op': 'zone', 'kw': kw, 'part': 'value',
+                                  'value': {'$dt': [2020, 5, 6 if kw == 'maximum' else 5, 1, 2, 3, 0], 'tz': 0}})
+        else:
+            cur = ops_so_far[byname['K-AXIS']]['attrs']['coordinates'][0]
+            ph['ops'].append({'op': 'assign', 'target': byname['K-AXIS'], 'target_op': 'axis', 'kw': 'coordinates', 'part': 'value',
+                              'value': ['x', 'y'] if not isinstance(cur, str) else [1.5, 2.5]})
     elif kind == 'rename':
         cands = [(i, o) for i, o in objs if o['op'] not in ('origin', 'channel')]
         if r.random() < 0.4:
